@@ -24,19 +24,24 @@ func init() {
 		Level: "exploration",
 		Rule: "word sets: ALL 2^15 subsets of the words of length <= 3 over {a,b} and ALL 2^13 subsets of the words of length <= 2 over {a,b,c} (exhaustive; thorough adds all 2^21 subsets of the words of length <= 2 over {a,b,c,d}), fixed families (empty set, {\"\"}, chains, full fans of 1..256 single-byte words, prefix x suffix products, the repo's test lists), seeded sets over alphabets of 1..256 bytes with words of 0..12 bytes and up to 5000 words in 7 sharing shapes, the repo dictionary (thorough); " +
 			"Add histories: ALL sequences of length <= 4 over {nil, \"\", a, aa, ab, b} x 3 caller behaviours (fresh slices / one reused buffer / buffer overwritten after Add) x 2 builder initialisations, and seeded histories with out-of-order and duplicate words interleaved. " +
+			"Builder life cycles (ONE Builder value used for several Dawgs in a row; after every build the Dawg it finished AND every earlier Dawg of the same Builder are compared with their own word sets in full again, and once more after a final Initialise): ALL ordered pairs of the 128 subsets of the words of length <= 2 over {a,b} (Finish, Initialise, build again), all ordered pairs of the 64 subsets of {\"\",a,aa,ab,b,ba} x 7 further ways from one build to the next (Initialise twice, a partial build abandoned with Initialise, a build abandoned right after a rejected Add, Finish without any word, the Builder value copied by assignment before / after Initialise with only the copy used afterwards, rejected Adds in the second build), chains of up to 19 contrasting fixed sets (0..512 words, fan-out 0..256), seeded scripts of 2..5 builds over related sets with junk Adds, abandoned builds, repeated Initialise and moved Builder values (thorough: all ordered triples of the 32 subsets of {a,aa,ab,b,ba}, one Builder through four thinned dictionaries); the Builder starts as new(Builder), as a copy by assignment of a zero value, initialised, or as a copy of an initialised value. Add / Finish after Finish without Initialise is forbidden by the documentation and never done. " +
 			"Each built automaton is compared with the sorted list: NumberOfWords, Lookup rank of every member, Lookup of non-members (prefixes, extensions, one-byte edits, deletions, random), an unfolding of the node graph along the trie (finality, labels, numWords = size of the right language), node count (accessor and GobEncode header) = number of distinct right languages. " +
-			"non-trivial = a set with >= 2 words whose minimal automaton has fewer nodes than its trie (suffixes were actually merged), or a history with >= 1 rejected and >= 2 accepted additions; distinct = hash of the word list / of the history",
+			"non-trivial = a set with >= 2 words whose minimal automaton has fewer nodes than its trie (suffixes were actually merged), or a history with >= 1 rejected and >= 2 accepted additions, or a life cycle in which a build adds a non-empty word while an earlier non-empty Dawg of the same Builder is alive; distinct = hash of the word list / of the history / of the script",
 		Assumptions: []string{
 			"oracle refdawg: sorted word list (rank = index), trie, minimal automaton size by hash-consing right languages (validated against explicit right languages and hand-computed sizes; harness code, no library code)",
 			"the verif-tagged accessor (*Dawg).VerifNodes reports the node graph faithfully (add-only file dawg/verif_export.go)",
 			"a nil []byte and an empty []byte both denote the empty word",
 			"the words handed to Add belong to the caller again once Add has returned: the model judges each Add against the bytes passed at that time",
+			"\"Initialise sets up the internal state ready for use\": after Initialise a Builder value builds as a fresh one does, whatever it did before, and a Dawg that Finish has returned is finished: it does not change when its Builder is initialised and used again; a Builder value copied by assignment between builds (zero value, after Finish, after Initialise) continues as the original would have, the original is not used again",
 		},
 		Run:            run,
 		MinEvaluations: map[string]int{"quick": 3000000, "thorough": 50000000},
 		MinNontrivial:  map[string]int{"quick": 30000, "thorough": 1000000},
 		RequiredObs: []string{"structure_walks", "header_counts_read", "lookups_of_non_members", "lookups_of_members", "adds_rejected_as_expected", "adds_accepted", "histories_finished", "sets_whose_input_slices_were_overwritten_after_New",
-			"sets_with_empty_word", "sets_alphabet>=128", "exhaustive:all 2^15 subsets of the 15 words of length<=3 over {a,b}"},
+			"sets_with_empty_word", "sets_alphabet>=128",
+			"life:scripts_completed", "life:earlier_non_empty_dawgs_rechecked", "life:dawgs_finished_by_a_reused_builder_checked", "life:initialise_after_finish", "life:initialise_after_an_abandoned_build", "life:initialise_after_a_rejected_add", "life:initialise_after_finish_of_an_empty_builder", "life:initialise_twice_in_a_row", "life:builder_value_copied_by_assignment_between_builds",
+			"life:origin:new(Builder)", "life:origin:copy by assignment of a zero value", "life:origin:new(Builder) and Initialise()", "life:origin:copy by assignment of an initialised Builder",
+			"exhaustive:all ordered pairs (first build, second build) of the 128 subsets of the 7 words of length<=2 over {a,b} with one Builder (Finish, Initialise, build again)", "exhaustive:all 2^15 subsets of the 15 words of length<=3 over {a,b}"},
 	})
 }
 
@@ -700,6 +705,9 @@ func run(c *engine.Ctx) {
 			})
 		}
 	}
+
+	// 7. Builder life cycles: one Builder used for several Dawgs in a row (life.go)
+	lifeCycles(c)
 }
 
 func commaSep(s string) string {
